@@ -121,7 +121,28 @@ func Mutate(r *Rand, doc *GDoc) *Mutation {
 	}
 	join := func() string { return strings.Join(ls, "") }
 	for attempt := 0; attempt < 20; attempt++ {
-		switch r.Intn(13) {
+		switch r.Intn(14) {
+		case 13: // a continuation line of an entry summary that consists of blank characters only
+			i := pickLine("cont")
+			if i < 0 {
+				// make one: add a blank-only continuation line after an entry line
+				i = pickLine("entry")
+				if i < 0 {
+					continue
+				}
+				ind := info[i].indent
+				body, end := lineBody(ls[i])
+				e := end
+				if e == "" {
+					e = "\n"
+				}
+				ls[i] = body + e + ind + ind + Pick(r, []string{"\u00a0", "\u3000 ", " \u00a0\t", "\u2003"}) + end
+				return &Mutation{"blank-continuation", join(), i + 1}
+			}
+			ind := info[i].indent
+			_, end := lineBody(ls[i])
+			ls[i] = ind + ind + Pick(r, []string{"\u00a0", "\u3000 ", " \u00a0\t", "\u2003"}) + end
+			return &Mutation{"blank-continuation", join(), i}
 		case 0: // malformed / non-Gregorian date
 			i := pickLine("head")
 			if i < 0 {
